@@ -153,14 +153,14 @@ impl Prop for C11 {
                 Stage {
                     name: "whitespace".into(),
                     len: n,
-                    chunk: (n / 64).max(200),
+                    chunk: (n / 20).max(200),
                     timeout: Duration::from_secs(1200),
                     what: "for every program: every token boundary x every whitespace string of the tier (quick: 4 singles + 4 pairs; thorough: all 20 over {sp,tab,CR,LF}^{1,2}) (one boundary at a time; existing whitespace replaced), all boundaries at once, leading and trailing".into(),
                 },
                 Stage {
                     name: "parens".into(),
                     len: n,
-                    chunk: (n / 64).max(200),
+                    chunk: (n / 20).max(200),
                     timeout: Duration::from_secs(1200),
                     what: "for every program: every subexpression wrapped in 1..3 redundant pairs, and every pair of subexpressions wrapped once".into(),
                 },
